@@ -120,6 +120,40 @@ class Func:
         return '<Func %s:%s>' % (self.module.rel, self.qualname)
 
 
+class FuncTable(dict):
+    """top-level functions of a module by name.  Looking a name up (`get`, `[]`, `in`) also finds a package function that the
+    module imports under that name (a helper moved into another module and imported back is still "the module's" helper
+    for the rules that are anchored on it); iteration lists only the functions defined here."""
+    def __init__(self, module):
+        super().__init__()
+        self._module = module
+        self._prog = None
+
+    def _imported(self, name):
+        m, prog = self._module, self._prog
+        if prog is None or not isinstance(name, str) or name not in m.imports:
+            return None
+        try:
+            t = prog.resolve_global(m.name, name)
+        except Exception:      # noqa
+            return None
+        return t if isinstance(t, Func) else None
+
+    def get(self, name, default=None):
+        if dict.__contains__(self, name):
+            return dict.__getitem__(self, name)
+        t = self._imported(name)
+        return t if t is not None else default
+
+    def __getitem__(self, name):
+        if dict.__contains__(self, name):
+            return dict.__getitem__(self, name)
+        t = self._imported(name)
+        if t is None:
+            raise KeyError(name)
+        return t
+
+
 class Module:
     def __init__(self, name, path, rel):
         self.name = name
@@ -128,7 +162,7 @@ class Module:
         with open(path, 'rb') as f:
             self.src = f.read().decode('utf-8')
         self.tree = ast.parse(self.src, filename=path)
-        self.funcs = {}       # top-level name -> Func
+        self.funcs = FuncTable(self)       # top-level name -> Func (imported package functions are found too)
         self.allfuncs = []    # all Funcs incl. nested and lambdas
         self.imports = {}     # local name -> ('mod', dotted) | ('attr', dotted, attr)
         self.assigns = {}     # module-level name -> list of value nodes
@@ -287,6 +321,8 @@ class Program:
                     self.modules[name] = Module(name, path, rel)
                 except SyntaxError as e:
                     raise AnalysisIncomplete('cannot parse %s: %s' % (rel, e))
+        for m_ in self.modules.values():
+            m_.funcs._prog = self
         self._classify_decorators()
         if os.environ.get('XRSA_PUBVIEW', '0') == '1':      # experiment only: see DESIGN §9
             self._public_views()
